@@ -90,6 +90,68 @@ def gen_macro_program(rng):
     return prog, None
 
 
+# ---------------------------------------------------------------- cascades: layouts that need many rounds
+def _width(v):
+    return max(1, (v.bit_length() + 7) // 8)
+
+
+def _rounds(exprs_before, exprs_after):
+    """number of widening rounds the relaxation needs for: pushes(before) L: jumpdest pushes(after),
+    each push being %push(L*m + k) given as (m, k).  Used only to SELECT interesting programs."""
+    n = len(exprs_before) + len(exprs_after)
+    w = [1] * n
+    rounds = 0
+    while True:
+        L = sum(1 + x for x in w[:len(exprs_before)])
+        changed = False
+        for i, (m, k) in enumerate(exprs_before + exprs_after):
+            need = min(32, _width(L * m + k))
+            if need > w[i]:
+                w[i] = need
+                changed = True
+        if not changed:
+            return rounds, w, L
+        rounds += 1
+
+
+def _cascade_prog(before, after):
+    def e(m, k):
+        t = ("lbl", "L") if m == 1 else G.climb([("lbl", "L"), "*", ("num", m)])
+        return t if k == 0 else G.climb([t, "+", ("num", k)]) if m == 1 else G.climb([("lbl", "L"), "*", ("num", m), "+", ("num", k)])
+    prog = [("push", e(m, k)) for m, k in before] + [("label", "L"), ("op", "jumpdest", None)] + [("push", e(m, k)) for m, k in after]
+    prog.append(("op", "push4", ("lbl", "L")))
+    return prog, ["L"]
+
+
+def cascade_programs(rng, n):
+    """programs whose auto-sized pushes settle only after several rounds: one push that grows twice
+    (%push(L + 256^k - (k+1))), and searched two/three-push programs in which each widening moves the
+    label far enough to widen another push (more rounds than there are pushes)."""
+    out = []
+    for k in (2, 3, 4, 8, 16, 31):
+        out.append(_cascade_prog([(1, 256 ** k - (k + 1))], []) + ("cascade-single",))
+    out.append(_cascade_prog([(10923, 0), (1, 251)], []) + ("cascade-two",))
+    tries = 0
+    seen = set()
+    while len(out) < n and tries < 20000:
+        tries += 1
+        nb = rng.randrange(2, 4)
+        na = rng.randrange(0, 2)
+        def rnd():
+            k = rng.choice([1, 2, 3])
+            if rng.random() < 0.5:
+                return (1, 256 ** k - rng.randrange(1, 12))
+            m = rng.choice([3, 7, 64, 10923, 21846, 13108, 255, 257, 65537 // rng.randrange(3, 12)])
+            return (m, rng.choice([0, 0, rng.randrange(0, 300)]))
+        before = [rnd() for _ in range(nb)]
+        after = [rnd() for _ in range(na)]
+        r, w, L = _rounds(before, after)
+        if r >= nb + na + 1 and max(w) < 32 and (tuple(before), tuple(after)) not in seen:
+            seen.add((tuple(before), tuple(after)))
+            out.append(_cascade_prog(before, after) + ("cascade-searched",))
+    return out
+
+
 def oracle(prog, order, answer):
     """The property itself on the implementation's bytes: the probes (fixed push4 of each label,
     in label order, at the end) must hold the decoded offset of the sentinel jumpdest after the label."""
@@ -127,10 +189,17 @@ def check(run):
             cat = "big" if big else "boundary"
         src = G.prog_src(prog)
         cases.append(dict(req="asm " + src.encode().hex(), coq=f"run_asm {G.prog_coq(prog)}", cat=cat, prog=prog, order=order, src=src))
+    for prog, order, cat in cascade_programs(rng, 40 if run.tier == "thorough" else 16):
+        src = G.prog_src(prog)
+        cases.append(dict(req="asm " + src.encode().hex(), coq=f"run_asm {G.prog_coq(prog)}", cat=cat, prog=prog, order=order, src=src))
+        mprog = [("defi", "m", ["q"], prog[:-1])] + [("macro", "m", [("num", 1)])]
+        src = G.prog_src(mprog)
+        cases.append(dict(req="asm " + src.encode().hex(), coq=f"run_asm {G.prog_coq(mprog)}", cat=cat + "-in-macro", prog=mprog, order=None, src=src))
     dis = common.correspond(run, cases, IMPORTS, tag="c01", timeout=900)
     run.corr["rule"] = ("layout programs: 1-3 labels each followed by a jumpdest sentinel, 2-6 fixed/auto-sized pushes of label expressions "
                         "(l, l+c, c-l, l-m+c), filler tuned so label values straddle 255/256 (and 65535/65536), probes push4 l at the end; "
-                        "macro variant with local labels; distinct = distinct sources")
+                        "macro variant with local labels; cascades: one auto-sized push that grows twice (L + 256^k - (k+1)) and searched 2-4 push programs "
+                        "that need more widening rounds than they have pushes, plain and inside a macro; distinct = distinct sources")
     found = 0
     for c in cases:
         problems = oracle(c["prog"], c["order"], c["impl"] or "")
